@@ -35,6 +35,11 @@ ftiny == NF(B8(0,0,0,0,0,0,0,1))        fmtiny == NF(B8(128,16,0,0,0,0,0,0))
 fnan == NF(B8(127,248,0,0,0,0,0,0))    finf == NF(B8(127,240,0,0,0,0,0,0))
 fninf == NF(B8(255,240,0,0,0,0,0,0))
 
+imax == NI(B8(127,255,255,255,255,255,255,255))
+f2p63 == NF(B8(67,224,0,0,0,0,0,0))    fm2p63 == NF(B8(195,224,0,0,0,0,0,0))
+u65 == NU(B8(0,0,0,0,0,0,0,65))
+\* strings whose bytes are the payload of a number: "PA" = payload of 65 (tag 0x50, byte 65), "\u0000" = payload of 0
+sPA == Str(<<80, 65>>)   sNul == Str(<<0>>)
 sEmpty == Str(<<>>)      sa == Str(<<97>>)       sA == Str(<<65>>)     sab == Str(<<97, 98>>)
 sb == Str(<<98>>)
 sE == Str(<<195, 169>>)  sSmile == Str(<<240, 159, 152, 128>>)
@@ -61,6 +66,12 @@ KeysSmall == {kEmpty, ka, kA, kab, kB, kb}
 KeysWide == {kEmpty, ka, kA, kb, kab, kE, kB}
 ObjValsSmall == {Null, u1, u256, sab}
 
+\* adjacent siblings that are "twins": equal by value in different encodings (scalars and containers), or
+\* of different types with the very same payload bytes
+TwinDocs == {Arr(<<Arr(<<u1>>), Arr(<<f1>>)>>), Arr(<<Obj(<< <<ka, f0>> >>), Obj(<< <<ka, fm0>> >>)>>), Arr(<<Arr(<<i1>>), Arr(<<u1>>), sab>>),
+             Obj(<< <<ka, Arr(<<Arr(<<f1, u1>>), Arr(<<u1, f1>>)>>)>> >>),
+             Arr(<<sPA, u65>>), Arr(<<u65, sPA, u65>>), Arr(<<u0, sNul>>), Arr(<<sNul, u0>>), Arr(<<Null, sEmpty, True, sEmpty>>),
+             Obj(<< <<ka, u65>>, <<kb, sPA>> >>)}
 \* hand-picked shapes that width-2 enumeration does not reach: a case variant before an unrelated key
 \* before the exact key; a longer key sorting before a shorter one; multi-byte keys side by side
 kAb == <<65, 98>>   kZed == <<90, 101, 100>>   kEb == <<195, 169, 98>>   kaa == <<97, 97>>
@@ -72,6 +83,7 @@ ExtraDocs == {Obj(<< <<kA, u1>>, <<kB, sab>>, <<ka, Null>> >>), Obj(<< <<kAb, u1
               \* smallest nested containers (one payload-free element; the only string of the document inside them)
               Arr(<<u1, Arr(<<sEmpty>>)>>), Obj(<< <<ka, Arr(<<sEmpty>>)>> >>), Arr(<<Arr(<<Arr(<<sEmpty>>)>>)>>),
               Arr(<<Arr(<<True>>), Obj(<< <<kEmpty, Null>> >>), Arr(<<Null>>)>>), Obj(<< <<kb, Obj(<< <<kEmpty, sEmpty>> >>)>> >>)}
+             \cup TwinDocs
 
 \* level-1 documents: containers of atoms
 L1(atoms, keys, ovals, w) == Arrays(atoms, w) \cup Objects(keys, ovals, w)
@@ -95,7 +107,11 @@ PairDocs ==
         Arr(<<Arr(<<u1, u1, u2>>)>>), Arr(<<Arr(<<u1, u2>>), u2>>), Arr(<<Arr(<<u2, u1>>), Arr(<<u1>>)>>), Arr(<<Obj(<< <<ka, u1>>, <<kb, u2>> >>)>>),
         Obj(<< <<ka, Arr(<<u1, u1, u2>>)>> >>), Obj(<< <<ka, u1>>, <<kb, Arr(<<u2>>)>> >>),
         Arr(<<True>>), Arr(<<True, False>>), Arr(<<False, True>>), Arr(<<Null, sEmpty>>), Arr(<<sEmpty>>), Arr(<<sEmpty, Null, False>>),
-        Arr(<<u1, u2, sa>>), Arr(<<sa, u2, u1, u2>>), Arr(<<u2, sa, u1>>), Obj(<< <<ka, True>>, <<kb, False>> >>), Obj(<< <<ka, True>> >>)}
+        Arr(<<u1, u2, sa>>), Arr(<<sa, u2, u1, u2>>), Arr(<<u2, sa, u1>>), Obj(<< <<ka, True>>, <<kb, False>> >>), Obj(<< <<ka, True>> >>),
+        \* the ends of the integer ranges against the floats next to them; payload twins; keys that concatenate alike
+        umax, f2p64, imin, fm2p63, imax, f2p63, Arr(<<umax>>), Arr(<<f2p64>>), Arr(<<sPA, u65>>), Arr(<<u65, sPA>>), Arr(<<u65>>), Arr(<<sPA>>),
+        Arr(<<u0, sNul>>), Arr(<<sNul>>),
+        Obj(<< <<ka, u1>>, <<<<98, 99>>, u2>> >>), Obj(<< <<kab, u1>>, <<<<99>>, u2>> >>)}
 
 \* decimal lexemes for the floats of the universes (checked by BigNat!IsRN wherever they are used)
 FL == << <<f1.b, <<49, 46, 48>> >>, <<f15.b, <<49, 46, 53>> >>, <<fm0.b, <<45, 48, 46, 48>> >>, <<f0.b, <<48, 46, 48>> >>,
